@@ -69,6 +69,10 @@ def pack_cases(tier, rng):
     corner = [b"_", b"a", b"Z", b"[", b"`", b"{", b"@", b"A1", b"a0", b"ab", b"aB_", b"0", b"~"]
     for _ in range(6 if not thorough else 40):
         pick = rng.sample(corner, rng.randrange(2, 8)); add([(n, content(rng, rng.randrange(0, 9))) for n in pick], "ordering-corners")
+    # a backslash is an ordinary character of a POSIX file name (it is part of the final component, of the sort key and of
+    # the stored name alike)
+    for pick in ([b"m.txt", b"z\\a.txt"], [b"x\\k", b"y\\j", b"a"], [b"b\\", b"\\a", b"B", b"c\\c\\c"]):
+        add([(n, content(rng, rng.randrange(0, 9))) for n in pick], "backslash-in-name")
     # path spellings
     for sp in SPELL:
         add([(sp(b"x.txt"), content(rng, 5)), (b"Y", content(rng, 2))], "path-spelling")
@@ -99,6 +103,7 @@ def refusal_cases(tier, rng):
     add(b"out.vol", [(b"a.txt", c(1)), (b"./a.txt", c(1))], "refuse-duplicate-same-file")
     add(b"out.vol", [(b"b", c(3)), (b"q", c(0)), (b"d/B", c(2)), (b"z", c(4)), (b"a", c(1))], "refuse-duplicate-non-adjacent-in-input")
     add(b"out.vol", [(b"m_", c(3)), (b"M_", c(0))], "refuse-duplicate-punctuation")
+    add(b"out.vol", [(b"x\\k", c(3)), (b"y\\k", c(1)), (b"X\\K", c(0))], "refuse-duplicate-with-backslash", pre="0102")
     for k in (5, 12):
         used = set(); files = [(rand_name(rng, used), c(rng.randrange(0, 6))) for _ in range(k)]
         dup = files[rng.randrange(k)][0]; files.insert(rng.randrange(k + 1), (b"e/f/" + dup.swapcase(), c(2)))
